@@ -350,6 +350,45 @@ func checkC12(c *Ctx) {
 		}
 		c.Fail(Finding{Sig: sig, Input: in, What: fmt.Sprintf("invariant %s of PosTrace.tla fails: %v (%s)", res.Violated, rec.Notes, truncate(it.Key, 200)), Replay: it.Replay})
 	})
+	// the cursor machine itself: hook events of whole restorations validated step by step (Render.tla)
+	var citems []traceItem
+	nCur := 12
+	if !c.Quick() {
+		nCur = 400
+	}
+	rc := rand.New(rand.NewSource(c.Seed + 12))
+	for i, f := range files {
+		if len(citems) >= nCur || len(f.Src) > map[bool]int{true: 12000, false: 60000}[c.Quick()] {
+			continue
+		}
+		df, err := decorator.Parse(f.Src)
+		if err != nil {
+			continue
+		}
+		mode := "plain"
+		if i%3 == 1 {
+			c12Markers(df, rc)
+			mode = "markers"
+		}
+		tr, msg := cursorTrace(df)
+		if msg != "" || tr.Len() == 0 {
+			continue
+		}
+		c.Eval("cursor|"+mode+"|"+f.Path, true)
+		citems = append(citems, traceItem{Key: "cursor|" + mode + "|" + f.Path, Trace: tr.Bytes(), Events: tr.Len(), Replay: obj{"kind": "c12", "paths": []string{f.Path}, "mode": mode, "seed": c.Seed}})
+	}
+	c.Traces(int64(len(citems)))
+	cev := validateTraces(c, "RenderCursorTrace", renderCursorCfg, citems, 30000, false, func(it traceItem, res *TLCResult) {
+		what := rejectText(res) + " " + offendingEvent(it, res)
+		if res.Violated == "" && !strings.Contains(res.Output, "is violated") {
+			// the real cursor arithmetic deviates from Render.tla; the position-space predicates above decide the property
+			c.Note("model_conformance:false (cursor machine) " + it.Key + ": " + truncate(what, 300))
+			c.Set("model_conformance", false)
+			return
+		}
+		c.Fail(Finding{Sig: "cursor-machine", Input: it.Key, What: what, Replay: it.Replay})
+	})
+	c.Set("cursor_events_validated", cev)
 	c.Set("rule", "case = one restorer restoring 1-4 files (plain, densely decorated with markers, or with shuffled declarations) into one FileSet; non-trivial = markers, edits or more than one file; distinct by mode + file list")
 }
 
